@@ -141,7 +141,9 @@ def install(rec):
 
 def plan(tier, seed):
     shards = 16
-    return [{"n": N_CASES[tier] // shards, "shard": i} for i in range(shards)]
+    shards_ = [{"n": N_CASES[tier] // shards, "shard": i} for i in range(shards)]
+    # plus the repository's own test-suite run with this check's contracts armed (DESIGN 6.4)
+    return shards_ + [{"kind": "suite", "shard": 99}]
 
 
 def gen_sizes(rng, sim, mode=None):
@@ -167,6 +169,10 @@ def gen_sizes(rng, sim, mode=None):
 
 
 def run_shard(spec, rec):
+    if spec.get("kind") == "suite":
+        from vlib import suite
+        suite.run_suite("checks.c06", rec)
+        return
     rng = random.Random(f"c06-{spec['seed']}-{spec['shard']}")
     for i in range(spec["n"]):
         es = E.gen_spec(rng, error_rate=rng.choice((0.2, 0.5, 1.0)))
